@@ -1,4 +1,6 @@
+use std::cell::Cell;
 use std::collections::HashMap;
+use std::rc::Rc;
 
 #[cfg(feature = "protobuf")]
 use protobuf::MessageDyn;
@@ -75,9 +77,11 @@ pub struct BindContext<'a> {
     funcs: HashMap<String, &'a RsCelFunction>,
     macros: HashMap<String, &'a RsCelMacro>,
     types: HashMap<String, CelValue>,
-    // set for the context the compiler folds constants with: nothing can be bound
-    // in it yet, so reading an unbound identifier must abort the fold
-    compile_time: bool,
+    // Present in the context the compiler folds constants with. Nothing can be bound in
+    // it yet, so an evaluation that reads an unbound identifier (or needs has()/coalesce())
+    // is not constant; the flag records that even when the resulting error is absorbed
+    // further up (||, match, macros), and is shared by the clones macros work on.
+    compile_time: Option<Rc<Cell<bool>>>,
 }
 
 impl<'a> BindContext<'a> {
@@ -88,7 +92,7 @@ impl<'a> BindContext<'a> {
             funcs: HashMap::new(),
             macros: HashMap::new(),
             types: HashMap::new(),
-            compile_time: false,
+            compile_time: None,
         };
 
         load_default_macros(&mut ctx);
@@ -103,7 +107,7 @@ impl<'a> BindContext<'a> {
             funcs: HashMap::new(),
             macros: HashMap::new(),
             types: HashMap::new(),
-            compile_time: true,
+            compile_time: Some(Rc::new(Cell::new(false))),
         };
 
         load_compile_macros(&mut ctx);
@@ -183,7 +187,22 @@ impl<'a> BindContext<'a> {
     }
 
     pub(crate) fn is_compile_time(&self) -> bool {
-        self.compile_time
+        self.compile_time.is_some()
+    }
+
+    /// Record that the evaluation in progress depends on something only known at run time.
+    pub(crate) fn mark_not_constant(&self) {
+        if let Some(flag) = &self.compile_time {
+            flag.set(true);
+        }
+    }
+
+    /// Read and reset the flag set by `mark_not_constant`.
+    pub(crate) fn take_not_constant(&self) -> bool {
+        match &self.compile_time {
+            Some(flag) => flag.replace(false),
+            None => false,
+        }
     }
 }
 
